@@ -236,6 +236,30 @@ def t6(F, rep):
     rep.add("T6", "reader-keeps-no-code-tables", not held, "%s:%s" % (b.file, b.line), "DeflateReader fields holding Huffman state across blocks: %s" % held)
 
 
+def t8(F, rep):
+    """Canonical-code decoding consumes at least one bit per symbol (RFC 1951 3.2.7: a single used code is coded with one
+    bit, not zero): every non-error result of decode_symbol lies behind a successful `get(1)`.  And the decoder's trees are
+    built from the header's code lengths as expanded by the shared routine, with nothing patched in between (a dummy code
+    added for the decoder's convenience changes the canonical assignment of every other code)."""
+    from .. import err
+    b = F.body(P + "huffman_helper::decode_symbol")
+    gets = [(bb, t) for bb, t in b.calls() if strip_generics(callee_def(t)).endswith("::get") and len(t["args"]) == 2 and flow.const_eval(b, t["args"][1]) == 1]
+    prods = [pb for pb, _ in err.result_producers(b, F)]
+    ok = bool(gets) and bool(prods)
+    for pb in prods:
+        if not any((ti := err.try_info(b, t["dest"]["l"])) and any(b.edge_dominates(a, s2, pb) for a, s2 in ti["continue_edges"]) for bb, t in gets):
+            ok = False
+    rep.add("T8", "symbol-costs-at-least-one-bit", ok, "%s:%s" % (b.file, b.line), "%d result site(s) of decode_symbol, each behind `get(1)?` (%d such reads)" % (len(prods), len(gets)))
+    from . import c07
+    from ..core import Report
+    tmp = Report("tmp", "quick")
+    c07.w7(F, tmp)
+    for o in tmp.obs:
+        if "create_from_original_encoding" in str(o.instance):
+            o.rule = "T8"
+            rep.obs.append(o)
+
+
 def t7(F, rep):
     """LZ77 copy (RFC 1951 3.2.3): a <length, distance> pair copies `length` bytes starting `distance` bytes back in the
     output.  write_reference must take its source from `plain_text.len() - dist` with the decoded distance itself (no clamp,
@@ -312,3 +336,4 @@ def run(ctx, rep):
     t5b(F, rep)
     t6(F, rep)
     t7(F, rep)
+    t8(F, rep)
